@@ -115,7 +115,9 @@ func (f *decompressor) step() (err error) {
 	}
 
 	if state.input == nil {
-		state.input, err = f.rBuf.Peek(f.rBuf.Size())
+		// wait for one byte more than the bit buffer already holds, not for a full buffer
+		_, err = f.rBuf.Peek(int(state.bitsLen/8) + 1)
+		state.input, _ = f.rBuf.Peek(f.rBuf.Buffered())
 		f.peekSize = len(state.input)
 		if err != nil && err != bufio.ErrBufferFull && err != io.EOF {
 			return err
